@@ -6,6 +6,9 @@ CHECKS = {
  "C09": dict(cat="model_checking", tech="TLA+ spec ThreadPool.tla (refines PoolAbs.tla) exhaustively model-checked by TLC incl. liveness; TLC state-graph paths and deviation counterexamples replayed step-by-step on the real threadpool.c under a controlled scheduler with state comparison",
    text="TLC explores every interleaving (mutex/condvar granularity, spurious wake-ups, failing item, allocation failure) of the implementation-shaped pool model for 1-3 workers x 2-4 items and checks FIFO, exactly-once, context exclusivity, sticky failure status, call termination (liveness under weak fairness) and refinement of the abstract pool; 13 named deviations must each yield a counterexample. The model is bound to the code by replaying an edge cover of the TLC state graph and all counterexample schedules on the unmodified threadpool.c under a scheduler that runs exactly one thread per model step, comparing the projected pool state and all API results after every step, plus seeded random schedules (up to 4 workers x 9 items) with deadlock detection.",
    note="Trusts: the controlled scheduler's POSIX semantics for mutex/condvar/join; that threadpool.c blocks only in intercepted calls; TLC. Real-pthread data races below lock granularity are out of scope.", ref="4 C09"),
+ "C18": dict(cat="model_checking", tech="TLA+ module Canon.tla: declarative CanonSpec/SaneSpec, transcription CanonImpl, theorems checked by TLC over all strings up to a length; table of the real functions over the same domain validated by TLC (TraceCanon.tla)",
+   text="TLC checks on every string over {'/', '.', ordinary, high byte} up to length 7 (quick) / 9 (thorough) that the transcription of the C loops equals the declarative meaning and that the result is clean, never longer, idempotent and names the same entry, failing exactly on a '..' component. The real canonicalize_name and is_filename_sane (compiled from the working tree with ASan, exact-size heap buffers) are then run on every string up to length 8 / 10 plus seeded random long strings, and TLC validates every recorded (input, return code, output, sane) record against the specification. Exhaustive within the bound on both sides.",
+   note="Trusts TLC and the JSON recorder; the 4-class alphabet stands for all non-NUL bytes (the code branches only on '/', '.', NUL); random strings use other bytes.", ref="4 C18"),
 }
 NOT_YET = {}
 def main():
